@@ -38,12 +38,17 @@ def _(fp: "file", needle: "bytes", start_offset: "opt[int]", max_offset: "int"):
     requires(implies(start_offset is not None, start_offset >= 0))
     yields("int")
     terminates()
+    case_split(max_offset=0)
     ghost(entry=True, do=[let("F", file_content(fp)),
                           let("s", old(file_pos(fp)) if start_offset is None else start_offset)])
     # no limit: exactly the occurrences, ascending (sequence equality gives: all, ordered, no negative, no duplicate)
     ensures(implies(max_offset == 0, yielded == all_occ(F, needle, s, len(F) - len(needle) + 1)))
     # with a limit: every reported offset is an occurrence ...
     ensures(forall(lambda k: occ(F, needle, yielded[k]), 0, len(yielded)))
+    # ... and every occurrence lying entirely before the limit is reported
+    ensures(implies(max_offset > 0, forall(
+        lambda o: implies(o + len(needle) <= max_offset and occ(F, needle, o), contains(yielded, o)),
+        s, len(F), trigger=occ(F, needle, o))))
     loop(0, invariant=[
         s <= file_pos(fp),
         file_pos(fp) <= len(F) or file_pos(fp) == s,
@@ -52,6 +57,9 @@ def _(fp: "file", needle: "bytes", start_offset: "opt[int]", max_offset: "int"):
         needle_len == len(needle), overlap_len == needle_len - 1,
         implies(max_offset == 0, yielded == all_occ(F, needle, s, file_pos(fp) - len(saved))),
         forall(lambda k: occ(F, needle, yielded[k]), 0, len(yielded)),
+        implies(max_offset > 0, forall(
+            lambda o: implies(o < file_pos(fp) - len(saved) and o + len(needle) <= max_offset
+                              and occ(F, needle, o), contains(yielded, o)), s, len(F), trigger=occ(F, needle, o))),
     ], decreases=len(F) - file_pos(fp) + 1)
     ghost(before="p = -1", do=[let("base", pos - len(saved)),
                                assert_(d == sub(F, base, base + len(d))),
@@ -60,17 +68,57 @@ def _(fp: "file", needle: "bytes", start_offset: "opt[int]", max_offset: "int"):
         -1 <= p, implies(p >= 0, p + len(needle) <= len(d)),
         implies(max_offset == 0, yielded == all_occ(F, needle, s, base + p + 1)),
         forall(lambda k: occ(F, needle, yielded[k]), 0, len(yielded)),
+        implies(max_offset > 0, forall(
+            lambda o: implies(o < base + p + 1 and o + len(needle) <= max_offset
+                              and occ(F, needle, o), contains(yielded, o)), s, len(F), trigger=occ(F, needle, o))),
     ], decreases=len(d) - p)
-    ghost(before="p = d.find(needle, p + 1)", do=[let("p_old", p)])
+    ghost(before="p = d.find(needle, p + 1)", do=[let("p_old", p), let("y_old", yielded)])
     ghost(after="p = d.find(needle, p + 1)", do=[
-        when(p != -1, [
+        when(max_offset == 0 and p != -1, [
             all_occ_split(F, needle, s, base + p_old + 1, base + p + 1),
             all_occ_split(F, needle, base + p_old + 1, base + p, base + p + 1),
             all_occ_empty(F, needle, base + p_old + 1, base + p),
-            all_occ_empty(F, needle, base + p + 1, base + p + 1)]),
-        when(p == -1 and p_old + 1 <= len(d) - overlap_len, [
+            all_occ_empty(F, needle, base + p + 1, base + p + 1),
+            assert_(all_occ(F, needle, s, base + p + 1) == y_old + [base + p])]),
+        when(max_offset == 0 and p == -1 and p_old + 1 <= len(d) - overlap_len, [
             all_occ_split(F, needle, s, base + p_old + 1, base + len(d) - overlap_len),
             all_occ_empty(F, needle, base + p_old + 1, base + len(d) - overlap_len)]),
+        when(max_offset > 0 and p != -1,
+             [assert_(forall(lambda o: not occ(F, needle, o), base + p_old + 1, base + p))]),
     ])
+    ghost(after="yield offset", do=[
+        assert_(offset == base + p),
+        when(max_offset > 0, [
+            assert_(yielded[len(y_old)] == offset), assert_(contains(yielded, offset)),
+            assert_(forall(lambda o: implies(contains(y_old, o), contains(yielded, o)), s, len(F),
+                           trigger=occ(F, needle, o)))])])
     domain(fp=files(alphabet=b"\x00\x01", maxlen=5, positions=(0, 1)), needle=bytes_(alphabet=b"\x00\x01", minlen=1, maxlen=3),
            start_offset=ints(None, 0, 1, 2), max_offset=ints(0, 2, 3), const_io__DEFAULT_BUFFER_SIZE=ints(1, 2, 3, 4))
+
+
+@contract("dissect.cobaltstrike.artifact:iter_artifactkit_payloads", mode="all", props=["C15", "C08"])
+def _(fobj: "file", start_offset: "opt[int]", maxrange: "opt[int]"):
+    """yields exactly the offsets in the scanned range whose header satisfies the self-referential
+    check, ascending, each with size / key / hints / decoded payload from the stated offsets."""
+    requires(implies(start_offset is not None, start_offset >= 0))
+    yields("record[ArtifactKitPayload]")
+    terminates()
+    ghost(entry=True, do=[let("F", file_content(fobj)),
+                          let("s", old(file_pos(fobj)) if start_offset is None else start_offset),
+                          let("E", max(s, len(F) - 3) if maxrange is None else max(s, min(len(F) - 3, maxrange + 1)))])
+    ensures(len(yielded) == len(ak_offsets(F, s, E)))
+    ensures(forall(lambda k: ak_item_ok(F, ak_offsets(F, s, E)[k], yielded[k]), 0, len(yielded)))
+    loop(0, invariant=[
+        s <= pos, pos <= max(s, len(F) - 3),
+        implies(maxrange is not None, pos <= max(s, maxrange + 1)),
+        len(yielded) == len(ak_offsets(F, s, pos)),
+        forall(lambda k: ak_item_ok(F, ak_offsets(F, s, pos)[k], yielded[k]), 0, len(yielded)),
+    ], decreases=len(F) - pos)
+    ghost(before="yield ArtifactKitPayload(offset=pos, size=size, xorkey=xorkey, hints=hints, payload=payload)",
+          do=[let("y_old", yielded)])
+    ghost(after="yield ArtifactKitPayload(offset=pos, size=size, xorkey=xorkey, hints=hints, payload=payload)",
+          do=[assert_(len(yielded) == len(y_old) + 1),
+              assert_(ak_item_ok(F, pos, yielded[len(y_old)])),
+              assert_(forall(lambda k: yielded[k] == y_old[k], 0, len(y_old)))])
+    domain(fobj=files(alphabet=b"\x00\x10\x11\x12", maxlen=5, positions=(0, 1)) + gen_ak_files(),
+           start_offset=ints(None, 0, 1), maxrange=ints(None, 0, 1, 3))
